@@ -91,6 +91,41 @@ func HarnessUnpack(w int, oracleFault int) {
 	vReach("end")
 }
 
+// HarnessHeld: Pack and Unpack are functions of their arguments: a result the
+// caller still holds is not changed by a later call (at any width), and the
+// input slices are left as they were.
+func HarnessHeld(w int, w2 int) {
+	b1 := make([]byte, w)
+	for i := range b1 {
+		b1[i] = vNondetU8()
+	}
+	b2 := make([]byte, w2)
+	for i := range b2 {
+		b2[i] = vNondetU8()
+	}
+	keep := append([]byte{}, b1...)
+	first := Unpack(w, b1)
+	vAssert(len(first) == 8, "unpacked count is 8")
+	if len(first) != 8 {
+		return
+	}
+	snap := append([]uint8{}, first...)
+	second := Unpack(w2, b2)
+	packed := Pack(nil, w2, second)
+	_ = packed
+	ok := true
+	for i := 0; i < 8; i++ {
+		ok = vAnd(ok, first[i] == snap[i])
+	}
+	vAssert(ok, "an unpacked group is not changed by a later Unpack or Pack")
+	ok = true
+	for i := range b1 {
+		ok = vAnd(ok, b1[i] == keep[i])
+	}
+	vAssert(ok, "Unpack leaves its input as it was")
+	vReach("end")
+}
+
 // HarnessVacuity is the assert-false twin: it must be reported violated.
 func HarnessVacuity(w int) {
 	vals := make([]uint8, 8)
